@@ -218,3 +218,22 @@ Section Sync.
           end
     end.
 End Sync.
+
+(** ---- the same alternation over the plain ordered list, for any validation predicate ---- *)
+Section ListSession.
+  Variables (max_set_size split_factor : N) (v : entry -> N -> bool).
+  Definition list_process (S : list entry) (m : message) :=
+    process_message om_ops max_set_size split_factor (fun _ => MISSING) (fun _ e st => v e st) S m.
+  Fixpoint list_session (fuel : nat) (SA SB : list entry) (m : message) (turn_b : bool)
+           (acc : list message) : option (list entry * list entry * list message) :=
+    match fuel with
+    | O => None
+    | S f =>
+        if turn_b then
+          let '(SB', reply, _) := list_process SB m in
+          match reply with None => Some (SA, SB', rev acc) | Some r => list_session f SA SB' r false (r :: acc) end
+        else
+          let '(SA', reply, _) := list_process SA m in
+          match reply with None => Some (SA', SB, rev acc) | Some r => list_session f SA' SB r true (r :: acc) end
+    end.
+End ListSession.
